@@ -318,7 +318,8 @@ func c15Alphabet(fids []p9p.Fid, maxList int, names []string) []UOp {
 		for _, n := range names {
 			ops = append(ops, UOp{Kind: "create", Fid: f, Name: n}, UOp{Kind: "mkdir", Fid: f, Name: n}, UOp{Kind: "rename", Fid: f, Name: n})
 		}
-		for _, n := range []string{"../../x", "../../../../../../tmp/x", "/abs", "sub/../../y", "../export-evil/inner/z"} {
+		for _, n := range []string{"../../x", "../../../../../../tmp/x", "/abs", "sub/../../y", "../export-evil/inner/z",
+			"/../planted", "/../outside.txt", "/../export-evil/secret.txt", "/sub/../../planted", "/./../planted", "/sub/deep/../../../export-evil/inner/p", "//../planted"} {
 			ops = append(ops, UOp{Kind: "rename", Fid: f, Name: n}, UOp{Kind: "create", Fid: f, Name: n})
 		}
 		ops = append(ops, UOp{Kind: "remove", Fid: f})
